@@ -15,12 +15,12 @@ def handleGated (args impl : List String) : Option (String × String) := do
   if m = "bad-impl" then pure (m, "bad-impl") else
   pure (m, if SpecC05.holds cap bs then "ok" else "fail")
 
-/-! c05.free <kind> <cap> <n> <iters> <seed> | g<r>.<e> b<r> u<n> … [wedged] end <inUse> <waiters> -/
+/-! c05.free <kind> <cap> <n> <iters> <seed> | g<r>.<e> b<r> u<n> … [wedged] max <m> end <inUse> <waiters> -/
 
 def parseFree : Nat → List String → Option (List SpecC05.FOp)
   | _, [] => some []
   | 0, _ => none
-  | _ + 1, ["end", a, w] => do pure [.fin (← Tok.nat? a) (← Tok.nat? w)]
+  | _ + 1, ["max", m, "end", a, w] => do pure [.maxHeld (← Tok.nat? m), .fin (← Tok.nat? a) (← Tok.nat? w)]
   | k + 1, t :: ts => do
     let rest ← parseFree k ts
     if t = "wedged" then pure (.wedged :: rest) else
@@ -33,23 +33,25 @@ def parseFree : Nat → List String → Option (List SpecC05.FOp)
     | 'u' :: cs => pure (.sample (← Tok.nat? (String.ofList cs)) :: rest)
     | _ => none
 
-def replayFree (cap : Nat) (ops : List SpecC05.FOp) : String × Bool :=
+def replayFree (cap slack : Nat) (ops : List SpecC05.FOp) : String × Bool :=
   let rec go (p : SpecC05.APool) (i : Nat) (acc : List String) : List SpecC05.FOp → String × Bool
     | [] => (Tok.unwords acc.reverse, true)
     | op :: rest =>
       match p.step? op with
       | none => (Tok.unwords (acc.reverse ++ [s!"reject@{i}", op.render]), false)
       | some p' => go p' (i + 1) (op.render :: acc) rest
-  go { cap := cap } 0 [] ops
+  go { cap := cap, slack := slack } 0 [] ops
 
 def handleFree (args impl : List String) : Option (String × String) :=
   match args with
-  | _kind :: cap :: _ => do
+  | kind :: cap :: n :: _ => do
     let cap ← Tok.nat? cap
+    let n ← Tok.nat? n
+    let slack := if kind = "std" then n else 0
     match parseFree (impl.length + 1) impl with
     | none => pure ("bad-impl", "bad-impl")
     | some ops =>
-      let (m, ok) := replayFree cap ops
+      let (m, ok) := replayFree cap slack ops
       pure (m, if ok ∧ ops.getLast?.any (fun o => match o with | .fin .. => true | _ => false) then "ok" else "fail")
   | _ => none
 
